@@ -11,7 +11,7 @@
 EXTENDS Unmerge, TraceLib
 VARIABLES l, fs, ctx
 
-EmptyFs == [names |-> {}, inodes |-> <<>>, handles |-> {}, links |-> {}]
+EmptyFs == [names |-> {}, inodes |-> <<>>, handles |-> {}, links |-> {}, mounts |-> {}]
 NoCtx == [s0 |-> EmptyFs, x |-> PlainExpected(EmptyFs, <<>>, <<>>, {}), listed |-> {}, behind |-> {}, prot |-> {}]
 
 ReportP(tid, i, bad) == \A c \in bad : PrintT(<<"VERDICT", tid, i, c[1], JoinPath(c[2])>>)
